@@ -48,7 +48,7 @@ def strategy(tier, phase):
 
     step = st.tuples(st.integers(0, len(PASSES) - 1), st.integers(0, 7)).map(list)
     return st.fixed_dictionaries({"tape": rmodel.tape_strategy(), "steps": st.lists(step, min_size=1, max_size=6), "wrap": st.integers(0, 3),
-                                  "gen": st.just(2), "prelude": st.one_of(st.just([]), st.just([]), rmodel.tape_strategy(100))})
+                                  "gen": st.sampled_from([2, 3, 3]), "prelude": st.one_of(st.just([]), st.just([]), rmodel.tape_strategy(100))})
 
 
 def make_pass(idx, param):
@@ -65,8 +65,14 @@ def make_pass(idx, param):
     if name == "LiftConstantsToInitializersPass":
         return cls(lift_all_constants=bool(param % 2), size_limit=[16, 0, 2][(param // 2) % 3])
     if name == "InlinePass":
-        if param % 3 == 1:
-            return cls(criteria=lambda f: f.name != "f0")
+        # the rarely used `criteria` option: keep one function (inline the others into it), or inline only one
+        k = param % 8
+        if k in (1, 3, 5, 6):
+            keep = {1: "f0", 3: "f2", 5: "f4", 6: "f5"}[k]
+            return cls(criteria=lambda f, keep=keep: f.name != keep)
+        if k in (2, 7):
+            only = {2: "f0", 7: "f1"}[k]
+            return cls(criteria=lambda f, only=only: f.name == only)
         return cls()
     if name == "CheckerPass":
         return cls(full_check=bool(param % 2))
@@ -144,7 +150,7 @@ def _evaluate(case):
         classes.append(["plain", "Sequential", "PassManager", "functionalize"][wrap])
         if prelude:
             classes.append("with_prelude_model")
-        classes.extend(sorted(f for f in features if f.startswith("opset") or f == "duplicate_differs_in_optional_slot"))
+        classes.extend(sorted("model:" + f for f in features))
     except Exception as e:
         root = e
         while root.__cause__ is not None:
